@@ -54,4 +54,47 @@ META = {
         note="Trusted: the model. Harness loops are bounded by n + 6, never while-let on a library iterator.",
         technique="trace monitor over iterator events (len/size_hint/yield) vs cursor-pair model",
     ),
+    "C05": dict(
+        text="The real operations run on a user-defined backend that relocates on every capacity change, surrounds the payload with guard zones, poisons fresh and released storage and quarantines released blocks, and on the built-in Heap under a "
+             "global allocator doing the same; guard/quarantine scans and element canaries after every step, lifecycle log (one build per vector with the element layout, release after the elements). The same workloads are replayed under Miri "
+             "(both copy paths) and AddressSanitizer where those modes are listed in the evidence. Exploration level.",
+        design_ref="DESIGN.md 3/C05, 1.4, 1.5, 1.8",
+        note="Guard zones see adjacent overruns and writes to released blocks; reads of stale/uninitialised bytes are seen when the bytes reach an element probe (canary) or a tool mode. Borrow-model (Stacked/Tree Borrows) reports are outside the property.",
+        technique="instrumented backend + instrumented allocator (guard zones, poison, relocate-always, quarantine) and UB interpreters/sanitizers over the same executions",
+    ),
+    "C07": dict(
+        text="mem::forget of removal handles, of drain/splice iterators at every consumption stage and of yielded items, from every state and sub-range, then further use and drop; monitors: prefix preservation, "
+             "no resurrected/duplicated/destroyed-twice element (registry + canaries), follow-up operations against the re-synchronised model. Exploration level.",
+        design_ref="DESIGN.md 3/C07",
+        note="What remains after the affected index is unspecified by the property; the monitor only requires it to consist of former elements, each at most once and alive.",
+        technique="registry + prefix monitor over forget-at-every-stage enumeration",
+    ),
+    "C11": dict(
+        text="All element, range, clone and lazy families on Stack/StackN vectors up to and one past their capacity, with a capacity-bounded Vec model (beyond capacity: panic and unchanged contents), the fixed capacity() value checked after every step, "
+             "and the instrumented global allocator counting allocations made by the thread during every library call (must be zero). Exploration level.",
+        design_ref="DESIGN.md 3/C11",
+        note="Allocations made while a panic is in flight are the panic runtime's and are not counted. Inline backends are exercised with element alignment <= 8 (storage alignment is C12's subject).",
+        technique="capacity-bounded differential monitor + per-thread allocation counter in the global allocator",
+    ),
+    "C13": dict(
+        text="Bounds-checked accessors at every index incl. len, len+1 and usize::MAX with the reports of every handle (type id, size, byte address and length) checked; every element overwritten or swapped through 15 kinds of view/handle and read back through all other views "
+             "(typed slice, erased get, iterator, byte view) after every step. Exploration level.",
+        design_ref="DESIGN.md 3/C13",
+        note="Byte-level writes are performed as a byte swap with a fresh value so the identity registry stays exact.",
+        technique="cross-view coherence monitor (write through one view, read through all others) + handle self-report checks",
+    ),
+    "C17": dict(
+        text="into_raw_parts / RawParts::clone / from_raw_parts round trips (1..3) from every state on every heap configuration and all eight constraint sets, before every element-wise operation and inside random histories: all public fields compared with the live vector, "
+             "no Drop/Clone event and no allocator event across the trip, identical base pointer and capacity after rebuilding, model and registry/allocator balance afterwards. Exploration level.",
+        design_ref="DESIGN.md 3/C17",
+        note="The zero-capacity Empty backend is covered by a separate probe (empty vectors only, by construction).",
+        technique="field-by-field comparison + event-counter monitors across the round trip",
+    ),
+    "C18": dict(
+        text="Heap vectors of every non-allocating layout under the instrumented global allocator: block count vs vectors with capacity x size > 0, containment/size/alignment of each vector's storage in a live block, layout equality on every realloc/dealloc, "
+             "no invalid layout reaching the allocator, zero attributed blocks at the end; checked after every step of the element/range/capacity/clone families and random histories. Exploration level.",
+        design_ref="DESIGN.md 3/C18, 1.5",
+        note="Attribution: allocations made by the thread inside a library call and outside harness/user scopes; reallocations/deallocations are attributed by block identity.",
+        technique="allocator event log (side table keyed by pointer) checked online after every operation",
+    ),
 }
